@@ -46,7 +46,7 @@ RULES = {
     "C02": "Seeded histories; per call the simulator's work clock (hash computations counted by the hasher seam, table allocations counted by the allocator seam, elements moved read through the hook) is compared with the stated bounds. " + _STATE,
     "C03": "Seeded histories; a countdown ceil(L/R) is armed when a resize starts and the number of live table allocations is compared with the hook state after every step. " + _STATE,
     "C04": "Seeded histories biased to churn, shrink_to/reserve mid-resize and emptied old tables; capacity()>=len() and the headroom invariant after every step, and every run ends with the fill-to-capacity probe. " + _STATE,
-    "C05": "Union workload (maps and sets, all element classes incl. zero-sized with destructors, cancellation of lazy operations) under ASan and the dev profile with liveness/canary element types and the cached-iterator agreement invariant after every step and right after every caught panic. Fault kinds: panics in Hash/Eq/Clone/closures/destructors (the run adopts what the collections hold and goes on), allocation failure, sizes near usize::MAX, logic-error keys (inconsistent Hash/Eq: only memory safety judged). Thorough adds a Miri stage. " + _STATE,
+    "C05": "Union workload (maps and sets, all element classes incl. zero-sized with destructors, cancellation of lazy operations) under ASan and the dev profile with liveness/canary element types and the cached-iterator agreement invariant after every step and right after every caught panic. Fault kinds: panics in Hash/Eq/Clone/closures/destructors (the run adopts what the collections hold and goes on), allocation failure, sizes near usize::MAX, logic-error keys (inconsistent Hash/Eq: only memory safety judged). Thorough adds a Miri stage. Plus five compile probes (probes/autotraits) for the Send/Sync declarations of the handle types. " + _STATE,
     "C06": "Tracked elements and the zero-sized class with destructors (counted in and out); panic-free histories with drain/drain_filter/into_iter dropped or forgotten after k steps; ledger of object ids (exactly-once drop, no leak) after every step and at teardown. " + _STATE,
     "C07": "For each explored (state, operation): dry run records the user callbacks performed, then one execution per callback with a panic injected at exactly that callback; distinct_nontrivial counts DISTINCT (operation kind, callback site, abstract state) triples whose crash points were enumerated.",
     "C08": "Seeded histories; iterators of every kind checked for exact len/size_hint at every step, fusedness, clone independence; drain/into_iter consumed, dropped or forgotten after k steps (every k in enumerated small states); one run in three first injects a panic into a user callback and then judges the iterators against what lookups find. " + _STATE,
